@@ -6,3 +6,4 @@ import MenelausVerif.Model.PageHinkley
 import MenelausVerif.Model.Lifecycle
 import MenelausVerif.Props.C13
 import MenelausVerif.Props.C01
+import MenelausVerif.Props.C02
